@@ -401,7 +401,9 @@ func (rn *runner) runShape(sc *scratch, s *shape, m *hlib.Model, seq int) {
 		verdict, errText = "err "+canonErr(verr.Error()), verr.Error()
 	} else {
 		verdict = "ok"
+		leaveCrumb("startup", line, data)
 		start, st, startErr = startUp(v, s.linkedURL, fmt.Sprintf("verifshape%d", seq))
+		leaveCrumb("", "", nil)
 	}
 	replay["real_error"] = errText
 
@@ -730,6 +732,8 @@ func (rn *runner) runPrune(sc *scratch, plain bool, ps []prune, seq int) {
 		return
 	}
 	r.Traces++
+	leaveCrumb("startup", line, data)
+	defer leaveCrumb("", "", nil)
 	// Every conversion and start-up step the sandbox can run; errors are
 	// reports, panics are crashes.
 	al := ratelimit.NewDynamicAllowlist(nil, nil)
